@@ -25,7 +25,7 @@ COMPONENTS = ['geo_index', 'within_constraints', 'classes', 'treat_groups', 'con
 
 def run(tier):
   return searchfam.run_family('C01', tier, 'props/C01.v', COMPONENTS, oracle, 150, 3000, RULE,
-                              assumptions=['eligibility rows of accepted tables are never all-zero (C16)'], gen_targets=searchfam.GEN_TARGETS_EXH)
+                              assumptions=['eligibility rows of accepted tables are never all-zero (C16)'], gen_targets=searchfam.GEN_TARGETS_ALL)
 
 
 def replay(data):
